@@ -167,6 +167,9 @@ func alStreamEvent(pk *alPkg, up bool, items []M) M {
 	})
 	ev["derr"] = dres
 	ev["intact"] = string(in) == string(b)
+	for i := range in { // the caller re-uses its receive buffer: what was decoded must not change with it
+		in[i] ^= 0xff
+	}
 	outs := []interface{}{}
 	for _, cm := range back {
 		outs = append(outs, alCmdVal(cm))
@@ -191,6 +194,9 @@ func alDecodeEvent(pk *alPkg, up bool, items []M, b []byte) M {
 	})
 	ev["derr"] = res
 	ev["intact"] = string(in) == string(b)
+	for i := range in { // the caller re-uses its receive buffer: what was decoded must not change with it
+		in[i] ^= 0xff
+	}
 	outs := []interface{}{}
 	for _, cm := range back {
 		outs = append(outs, alCmdVal(cm))
